@@ -19,6 +19,15 @@ for sid in ids:
         print(sid, 'EVALUATION FAILED\n', out[-600:])
         continue
     m['demo_exit_with_change'], m['demo_exit_without_change'] = int(w.group(1)), int(wo.group(1))
+    notes = open(d + '/notes.md').read() if os.path.exists(d + '/notes.md') else ''
+    if not m.get('title'):
+        m['title'] = (notes.strip().splitlines() or [''])[0].lstrip('# ').strip()
+    if not m.get('needs_to_manifest'):
+        nm = re.search(r'^#+ [^\n]*manifest[^\n]*\n(.*?)(?=^#+ |\Z)', notes, re.S | re.M | re.I)
+        m['needs_to_manifest'] = ' '.join(nm.group(1).split())[:1200] if nm else ''
+    m.setdefault('files_changed', [l.split(' b/')[-1].strip() for l in open(d + '/patch.diff') if l.startswith('diff --git')])
+    m.setdefault('origin', 'written by a fresh sub-agent that was given only the text of property %s (round 2: plus the one-line title of the round-1 seed, to ask for a defect different in kind) and its own scratch worktree of /repo under /tmp; nothing from /verif' % m['property'])
+    m['what_i_ran'] = ['tools/seed_accept.sh %s  = tools/seed_update.py (fresh detached worktree of /repo HEAD under /tmp/ev: git apply patch.diff; demo.py -> exit %s; git apply -R; demo.py -> exit %s; patch re-applied; PV_REPO=<worktree> python3 -m pv check C01..C20 --no-write; worktree removed) and tools/seed_tests.sh (fresh worktree under /tmp/evt with the patch: pinned unit suite -> 3358 passed, the 2 baseline failures; worktree removed)' % (sid, w.group(1), wo.group(1))]
     checks = {}
     cur = None
     for line in out.split('== checks against seeded tree')[-1].splitlines():
